@@ -17,6 +17,9 @@ const (
 func (its *MongoCollections) GetNextCollectionNum(ctx iface.OrdaContext) (int32, errors.OrdaError) {
 	opts := options.FindOneAndUpdate()
 	opts.SetUpsert(true)
+	// return the incremented counter: with the default (the document before the update) the first call
+	// finds no document and answers 1, and the second call reads the stored 1 again
+	opts.SetReturnDocument(options.After)
 	var update = bson.M{
 		"$inc": bson.M{schema.CounterDocFields.Num: 1},
 	}
